@@ -63,7 +63,7 @@ def run_checks(prop, ids):
         # evidence written while a seeded change was applied must never stay in the tree
         if os.path.exists(bak):
             shutil.move(bak, evp)
-        sh(f'{PY} {VERIF}/harness/mk.py --gen >/dev/null 2>&1')
+        sh(f'cd {VERIF}/harness && {PY} -c "import common as C; C.regenerate()" >/dev/null 2>&1')   # restore coq/gen from the clean tree
 
 
 def _run_checks(prop, ids):
